@@ -17,6 +17,7 @@ import c15_model as M
 import c16_corpus as K
 import c16_names as NM
 import c16_round4 as R4
+import c16_multiline as ML
 from pathlib import Path
 from c15 import RUNNER, file_diff, known_entries, same_result
 from c15_corpus import FULL_CERT
@@ -50,6 +51,8 @@ def gen_pairs(rng, tier, rel_stats=None, selector_args=False, nested=False):
     pairs += R4.body_pairs(rng, 240 if q else 1600, rel_stats.setdefault("calc_scope", {}))
     if nested:
         pairs += R4.nested_pairs(rng, 80 if q else 500, rel_stats.setdefault("macro_in_macro_body", {}))
+    # strengthening round 5: multi-line argument lists of parameterised macros, every kind of token after the `)`
+    pairs += ML.pairs(rel_stats.setdefault("multiline_arguments", {}))
     for m in K.MACROS:
         for u in K.USES:
             if not K.fits(m, u):
@@ -478,6 +481,15 @@ def main(tier: str) -> int:
         braw.append(dict(job=j, real=r))
     bbad, errs6 = eval_cases(PROP, HEADER16, bterms, per_file=200, checker="bmismatches", prefix="body")
     errs3 = errs3 + errs4 + errs5 + errs6
+    # (g) round 5: the last token of the expansion of `KEY(<multi-line argument list>)` ends where the bracket's TEXT ends
+    ejobs, ewant = ML.end_jobs(ck.rng)
+    ereal = run_py(RUNNER, dict(op="parse", jobs=ejobs), timeout=300)
+    ebad = []
+    for j, w, r in zip(ejobs, ewant, ereal):
+        got = tuple(r["programs"][0][-1][5] or ()) if r["ok"] and r["programs"] and r["programs"][0] else None
+        if got != w:
+            ebad.append(dict(header=j["header"], text=j["string"], line=j["line"], col=j["col"], expected_macro_end=list(w),
+                             real_macro_end=list(got) if got else (r.get("exc") if not r["ok"] else None)))
     note = ("the Coq model (of the repaired macro position synthesis / number_macros / CustomOrder) no longer describes the code; "
             + ("see the macro-differs-from-hand-expansion replays of this run for failing inputs" if viol_n
                else "the metamorphic search found no failing input"))
@@ -497,6 +509,10 @@ def main(tier: str) -> int:
         ck.violation(dict(kind="hardcode-calc-scope-correspondence-differs", n=len(bbad), note=note,
                           model="Model.MacroScope.calc_all (scope of the substitution = the bracket of Hardcode.calc)",
                           cases=[braw[i] for i in bbad[:3]]), no_input=True)
+    if ebad:
+        ck.violation(dict(kind="macro-end-of-multiline-bracket-differs", n=len(ebad), note=note,
+                          spec="c16_multiline.text_end: (line, col) right after the text of the replaced argument bracket",
+                          cases=ebad[:3]), no_input=True)
     if obad:
         ck.violation(dict(kind="custom-order-correspondence-differs", n=len(obad), note=note,
                           cases=[dict(a=opairs[i][0], b=opairs[i][1], real=oreal[i]) for i in obad[:4]]), no_input=True)
@@ -519,13 +535,14 @@ def main(tier: str) -> int:
                                          "definitions of the same macro name (both orders); every step == its own hand expansion"),
         relation_pairs_valid={m: sum(1 for p, a, b in zip(pairs, ra, rb) if p["macro"] == m and (a["ok"] or b["ok"]))
                               for m in ("param-relations", "int-name-relations", "left-alone-relations", "enum-numbering",
-                                        "calc-scope", "macro-in-macro-body")},
+                                        "calc-scope", "macro-in-macro-body", "multiline-arguments")},
         model_tie=dict(header_token_cases=len(terms), mismatches=len(bad), model_declined=len(uns),
                        custom_order_cases=len(oterms), custom_order_mismatches=len(obad),
                        parameter_substitution_cases=len(pterms), parameter_substitution_mismatches=len(pbad),
                        parameter_substitution_skipped=pskipped,
                        hardcode_calc_cases=len(cterms), hardcode_calc_mismatches=len(cbad),
                        hardcode_body_cases=len(bterms), hardcode_body_mismatches=len(bbad),
+                       multiline_bracket_end_cases=len(ejobs), multiline_bracket_end_mismatches=len(ebad),
                        header_case_kinds=dict(tie_stats)),
         samples=[dict(header=p["header"], with_macro=p["a"], hand=p["b"]) for p in pairs[:2]],
     ))
